@@ -407,13 +407,19 @@ class AssignedFeatureCounter(AbstractCounter):
     # a feature id may itself start with an underscore, so only these exact names end the table
     STAT_LINE_PREFIXES = ("__ambiguous\t", "__no_feature\t", "__not_aligned\t", "__usable\t")
 
+    # the header of a counts file is its first line (format_header, copied by merge_counts from the first
+    # per-chromosome file); a feature id may itself start with '#', so no later line is a header
+    @staticmethod
+    def is_header_line(line_number, line):
+        return line_number == 0 and line.startswith("#feature_id\t")
+
     def convert_counts_to_tpm(self, normalization_str=NormalizationMethod.simple.name):
         normalization = NormalizationMethod[normalization_str]
         total_counts = defaultdict(float)
         with open(self.output_counts_file_name) as f:
-            for line in f:
+            for line_number, line in enumerate(f):
                 if line.startswith(self.STAT_LINE_PREFIXES): break
-                if line.startswith('#'): continue
+                if self.is_header_line(line_number, line): continue
                 fs = line.rstrip().split('\t')
                 if self.ignore_read_groups:
                     total_counts[AbstractReadGrouper.default_group_id] += float(fs[1])
@@ -434,9 +440,9 @@ class AssignedFeatureCounter(AbstractCounter):
 
         with open(self.output_tpm_file_name, "w") as outf:
             with open(self.output_counts_file_name) as f:
-                for line in f:
+                for line_number, line in enumerate(f):
                     if line.startswith(self.STAT_LINE_PREFIXES): break
-                    if line.startswith('#'):
+                    if self.is_header_line(line_number, line):
                         # only the value column of an ungrouped table is renamed, group names are copied as they are
                         outf.write(line.replace("count", "TPM") if self.ignore_read_groups else line)
                         continue
